@@ -1211,12 +1211,46 @@ impl Engine for C05 {
 
     fn generate(&self, rng: &mut Rng, tier: Tier) -> Case {
         let deep = tier == Tier::Thorough && rng.chance(1, 4);
-        let nbundles = if deep { rng.range(2, 3) as usize } else if rng.chance(1, 3) { 2 } else { 1 };
+        let nbundles = if deep { rng.range(2, 3) as usize } else if rng.chance(1, 2) { 2 } else { 1 };
         let mut pc = rng.below(1 << 40);
         let tamper_pct = *rng.pick(&[0u64, 30, 60]);
         let constants_seed = rng.next_u64();
         let dconst = domain_constants(constants_seed);
-        let bundles: Vec<BundleSpec> = (0..nbundles).map(|_| gen_bundle(rng, &mut pc, tamper_pct, &dconst)).collect();
+        let mut bundles: Vec<BundleSpec> = (0..nbundles).map(|_| gen_bundle(rng, &mut pc, tamper_pct, &dconst)).collect();
+        // near-collisions between the bundles that share the cache: a second bundle that is
+        // the first one on another coin, or the first one with one opcode changed (most of the
+        // (key, message) pairs are then equal or differ in one appended attribute only)
+        if bundles.len() >= 2 && rng.chance(1, 2) {
+            let mut twin = bundles[0].clone();
+            twin.tamper = Tamper::None;
+            match rng.below(3) {
+                0 => {
+                    for sp in twin.spends.iter_mut() {
+                        pc += 1;
+                        sp.parent_seed = pc;
+                    }
+                }
+                1 => {
+                    for sp in twin.spends.iter_mut() {
+                        pc += 1;
+                        sp.parent_seed = pc;
+                        for c in sp.conds.iter_mut() {
+                            if rng.chance(1, 2) {
+                                c.opcode = 43 + rng.below(8) as u8;
+                            }
+                        }
+                    }
+                }
+                _ => {
+                    for sp in twin.spends.iter_mut() {
+                        pc += 1;
+                        sp.parent_seed = pc;
+                        sp.amount = *rng.pick(&AMOUNTS);
+                    }
+                }
+            }
+            bundles[1] = twin;
+        }
         let nthreads = if deep { rng.range(3, 4) as usize } else { rng.range(2, 3) as usize };
         let threads: Vec<Vec<Party>> = (0..nthreads)
             .map(|_| {
